@@ -249,9 +249,9 @@ Proof.
   assert (Hotlen : length ot = length sw) by (rewrite <- Hsearch, map_length; reflexivity).
   assert (Hotne : ot <> []) by (intro E; rewrite E in Hotlen; destruct sw; [contradiction|discriminate]).
   assert (Hwslen : (length ot < length ws)%nat).
-  { unfold ws. rewrite !app_length, Hotlen.
+  { unfold ws. rewrite !app_length, Hotlen. clear - Hswne Hpp.
     destruct pre; destruct post; cbn [length app] in *; try lia. contradiction. }
-  replace (Nat.eqb (length ws) (length ot)) with false by (symmetry; apply Nat.eqb_neq; lia).
+  replace (Nat.eqb (length ws) (length ot)) with false by (symmetry; apply Nat.eqb_neq; clear - Hwslen; lia).
   cbn [andb].
   (* separator flags *)
   assert (Hc : forall d, is_delim d = true -> contains d idw = (d =? sep)).
@@ -265,10 +265,10 @@ Proof.
                    || (contains 45 idw && contains 46 idw) = false).
   { rewrite H95, H45, H46. destruct HS as [[_ ->]|[[_ ->]|[_ ->]]]; reflexivity. }
   rewrite Hmixed. cbn [andb].
-  replace (Nat.ltb (length ws) (length ot)) with false by (symmetry; apply Nat.ltb_ge; lia).
+  replace (Nat.ltb (length ws) (length ot)) with false by (symmetry; apply Nat.ltb_ge; clear - Hwslen; lia).
   replace (Nat.eqb (length ot) 0) with false
     by (symmetry; apply Nat.eqb_neq; destruct ot; [contradiction | discriminate]).
-  replace (Nat.eqb (length ws) 0) with false by (symmetry; apply Nat.eqb_neq; lia).
+  replace (Nat.eqb (length ws) 0) with false by (symmetry; apply Nat.eqb_neq; clear - Hlen; lia).
   replace (Nat.eqb (length nt) 0) with false
     by (symmetry; apply Nat.eqb_neq; destruct nt; [contradiction | discriminate]).
   cbn [orb].
